@@ -64,7 +64,12 @@ MutinyStream<'a, ItemType, ChannelConsumerType, DerivedItemType> {
                     self.events_source.register_stream_waker(self.stream_id, cx.waker());
                     Poll::Pending
                 } else {
-                    Poll::Ready(None)
+                    // told to end: look once more before answering "no more elements", as an event may have been published
+                    // after our (failed) attempt to consume -- and before the channel was told to end, so it must not be lost
+                    match self.events_source.consume(self.stream_id) {
+                        Some(event) => Poll::Ready(Some(event)),
+                        None => Poll::Ready(None),
+                    }
                 }
             },
         }
